@@ -234,7 +234,17 @@ fn judge<G: CurveTag>(
         for mode in modes {
             match mode {
                 0 => {
-                    let v = run_verifier::<G>(&fx.prog, &fx.commitments, proof, &VerifyOpts::default());
+                    let (v, peak) = measure(|| run_verifier::<G>(&fx.prog, &fx.commitments, proof, &VerifyOpts::default()));
+                    // verification works on the circuit's padded size and the proof it was given: what
+                    // it allocates stays within a fixed allowance plus a multiple of both
+                    let allowance = 16 * 1024 * 1024 + 4096 * (bytes.len() + 512);
+                    if peak > allowance {
+                        return Err(Failure::new(
+                            "C08:verify-memory",
+                            format!("Verifier::verify of a {}-byte proof (decoded with {}; lists of {} and {} points) against a circuit of {} gates reached {} live heap bytes (allowance {})", bytes.len(), how, proof_lens(proof).0, proof_lens(proof).1, fx.prog.shape().n(), peak, allowance),
+                            what(),
+                        ));
+                    }
                     if let Some(p) = &v.panic {
                         return Err(Failure::new(
                             format!("C08:verify-panic:{}", p.split('@').last().unwrap_or("").trim()),
@@ -263,6 +273,11 @@ fn judge<G: CurveTag>(
         }
     }
     Ok((true, verdicts.join(",")))
+}
+
+fn proof_lens<G: CurveTag>(p: &R1CSProof<G>) -> (usize, usize) {
+    let m = crate::mirror::ProofMirror::from_proof(p);
+    (m.ipp.L.len(), m.ipp.R.len())
 }
 
 fn grid_case<G: CurveTag>(c: &GridCase, col: &mut Collector) -> Result<(), Failure> {
@@ -336,8 +351,11 @@ fn fuzz_case<G: CurveTag>(bytes: &[u8], col: &mut Collector) -> Result<(), Failu
         0 => {
             let mut m = fx.mirror.clone();
             let k = m.ipp.L.len();
-            let la = if ch.chance(100) { k } else { ch.below(13) };
-            let lb = if ch.chance(100) { la } else { ch.below(13) };
+            // mostly short lists; now and then tens of points (never beyond 24: 2^|L| of anything
+            // must stay allocatable, the grid covers 31..65)
+            let len = |ch: &mut Choices| if ch.chance(40) { 13 + ch.below(12) } else { ch.below(13) };
+            let la = if ch.chance(100) { k } else { len(&mut ch) };
+            let lb = if ch.chance(100) { la } else { len(&mut ch) };
             let pool: Vec<G> = m.ipp.L.iter().chain(m.ipp.R.iter()).copied().collect();
             let mut pick = |ch: &mut Choices, i: usize| -> G {
                 match ch.weighted(&[50, 25, 25]) {
@@ -532,6 +550,16 @@ pub fn run(tier: &str, seed: u64) -> i32 {
         "panics are observed with catch_unwind in a panic=unwind build of the library; aborts would kill the process (exit ≠ 0)".into(),
         "memory bound checked on decode: peak additional live heap ≤ 64·len + 64 KiB (counting global allocator, per thread)".into(),
     ];
+    let n = super::scale(tier, 6000, 200000);
+    for c in Curve::ALL {
+        if !rep.outcome.found.is_empty() {
+            break;
+        }
+        let sub = format!("c08/{}", c.name());
+        rep.outcome.merge(replay_corpus("C08", &sub, &|b, col| dispatch(&sub, b, col)));
+        rep.outcome.merge(search(&sub, seed, n, 900, &|b, col| dispatch(&sub, b, col)));
+    }
+    if rep.outcome.found.is_empty() {
     // quick: full grid on one curve (rotating with the seed), every third cell on the others
     let full = Curve::ALL[(seed % 3) as usize];
     let plan: Vec<(Curve, usize)> = Curve::ALL
@@ -544,14 +572,6 @@ pub fn run(tier: &str, seed: u64) -> i32 {
     rep.extra.insert("grid_cells".into(), json!(cells.len()));
     rep.extra.insert("grid_full_on".into(), json!(plan.iter().filter(|p| p.1 == 1).map(|p| p.0.name()).collect::<Vec<_>>()));
     rep.outcome.merge(g);
-    let n = super::scale(tier, 6000, 200000);
-    for c in Curve::ALL {
-        if !rep.outcome.found.is_empty() {
-            break;
-        }
-        let sub = format!("c08/{}", c.name());
-        rep.outcome.merge(replay_corpus("C08", &sub, &|b, col| dispatch(&sub, b, col)));
-        rep.outcome.merge(search(&sub, seed, n, 900, &|b, col| dispatch(&sub, b, col)));
     }
     // containers of proofs (empty, many members, one member with long lists)
     if rep.outcome.found.is_empty() {
